@@ -959,7 +959,9 @@ def read_config(cfg: configparser.ConfigParser, section: str) -> Mapping[str, Ar
     logger.info(f"Loading {cfg.__class__.__name__}")
     args: Mapping = {}
     if section not in cfg:
-        return args
+        # No section of its own (yet): the default section applies by itself,
+        # as it will once the section has been written.
+        section = cfg.default_section
 
     proxy = cfg[section]
     handlers = {
